@@ -52,7 +52,9 @@ SnapOK(e) ==
           \* placement and sizes are what the design says (Envelope.tla)
           /\ s.obase = OriginalBase(rate', cfg'.k, cfg'.r) /\ s.rbase = RecoveryBase(rate', cfg'.k, cfg'.r)
   /\ s.wc = (IF Role = "enc" THEN WorkCountEnc(rate', cfg'.k, cfg'.r) ELSE WorkCountDec(rate', cfg'.k, cfg'.r))
-  /\ s.len = s.wc * Blocks(cfg'.sb) /\ s.cap >= s.len
+  \* the buffer covers the configuration's need (it may be longer: how much of the owned memory is kept "in use"
+  \* between configurations is not observable and not part of any property)
+  /\ s.len >= s.wc * Blocks(cfg'.sb) /\ s.cap >= s.len
 
 \* the return value is one of the allowed ones, and an error's Display text is the documented one
 RetOK(e) == /\ e.ret \in last'.allowed
